@@ -317,6 +317,29 @@ def run(scenario):
                 self.idx[node.name] = len(reqs)
                 if node.state != 'running' or node.exited or w.poisoned:
                     return
+                # "kernel errors surface as errors": a NEWSA the kernel refused (any errno) is not treated as installed - after the step no
+                # CHILD_SA is tracked that would use the refused SA
+                for r_ in reqs[i:]:
+                    d = r_.get('decoded')
+                    if r_['type'] != K['XFRM_MSG_NEWSA'] or not r_['errno'] or not d or d.get('kind') != 'newsa':
+                        continue
+                    sid = d['sa']['id']
+                    key = (sid['daddr_raw'], sid['proto'], sid['spi'])
+                    ctx['reach']['refused_newsa_judged'] = ctx['reach'].get('refused_newsa_judged', 0) + 1
+                    if key in node.kernel.sad:
+                        continue
+                    for sa in node.ike_sas():
+                        if sa.state.name == 'DELETED':
+                            continue
+                        for c in sa.child_sas:
+                            if (bytes(c.outbound_spi) == sid['spi'] and sid['daddr_raw'] == _addr_raw(str(sa.peer_addr))) or \
+                                    (bytes(c.inbound_spi) == sid['spi'] and sid['daddr_raw'] == _addr_raw(str(sa.my_addr))):
+                                w.violation(PROP, 'kernel_error_treated_as_success', {'errno': r_['errno']},
+                                            f'{node.name}: the kernel refused XFRM_MSG_NEWSA for SPI {sid["spi"].hex()} with errno {r_["errno"]} at t={r_["t"]:.2f}, '
+                                            f'yet after that step IKE_SA {sa.my_spi.hex()} ({sa.state.name}) tracks CHILD_SA '
+                                            f'{bytes(c.inbound_spi).hex()}/{bytes(c.outbound_spi).hex()} as installed')
+                                w.poisoned = True
+                                return
                 # removing a CHILD_SA means removing both of its SAs: whatever the kernel answers to the first DELSA, the second is sent
                 dels = [r_['decoded']['id']['spi'] for r_ in reqs[i:] if r_.get('decoded') and r_['decoded'].get('kind') == 'delsa']
                 for spi_ in (dels if not scenario.get('byz') else []):          # (a peer re-using SPIs makes the pairing ambiguous)
